@@ -5,7 +5,7 @@ CONSTANTS
   Packets <- MCPackets
   MaxTimers = 3
   MaxSess = 2
-  MaxTime = 500
+  MaxTime = 400
   MaxReqs = 2
   MaxAns = 2
   Reliable = FALSE
@@ -17,4 +17,6 @@ INVARIANT Interval
 INVARIANT NoRetryAfterAnswer
 INVARIANT ChainAlive
 INVARIANT NoOrphans
+INVARIANT NoLockLeak
+INVARIANT ChainKept
 CHECK_DEADLOCK FALSE
